@@ -136,7 +136,7 @@ Fixpoint render (c : ctx) (p : pz) (t : term) {struct t} : res (str * pz) :=
                   else Ok (L "*", p)
       | None => Ok (L "*", p)
       end
-  | TIndex name _ => Ok (fquote (quote_char c) name, p)
+  | TIndex name alias => Ok (alias_if (with_alias c) c (fquote (quote_char c) name) alias, p)
   | TVal w v vid alias allow =>
       match p with
       | Some z =>
@@ -153,45 +153,45 @@ Fixpoint render (c : ctx) (p : pz) (t : term) {struct t} : res (str * pz) :=
           else do (s, p1) <- render c p t'; Ok (alias_sql c s alias, p1)
       | None => do (s, p1) <- render c p t'; Ok (alias_sql c s alias, p1)
       end
-  | TNeg t' _ =>
-      do (s, p1) <- render c p t';
+  | TNeg t' alias =>
+      do (s, p1) <- render (set_with_alias false c) p t';
       let compound := match t' with TArith _ _ _ _ => true | _ => false end in
-      Ok ([45] ++ paren_if (compound || starts_minus s) s, p1)
+      Ok (alias_if (with_alias c) c ([45] ++ paren_if (compound || starts_minus s) s) alias, p1)
   | TArith op l r alias =>
-      do (sl, p1) <- render c p l;
-      do (sr, p2) <- render c p1 r;
+      do (sl, p1) <- render (set_with_alias false c) p l;
+      do (sr, p2) <- render (set_with_alias false c) p1 r;
       let rp := right_needs_parens op (op_of r) || (arith_eqb op Sub && starts_minus sr) in
       let s := paren_if (left_needs_parens op (op_of l)) sl ++ arith_sql op ++ paren_if rp sr in
       Ok (alias_if (with_alias c) c s alias, p2)
   | TBasic o l r alias =>
-      do (sl, p1) <- render c p l;
-      do (sr, p2) <- render c p1 r;
+      do (sl, p1) <- render (set_with_alias false c) p l;
+      do (sr, p2) <- render (set_with_alias false c) p1 r;
       Ok (alias_if (with_alias c) c (sl ++ cmp_sql o ++ sr) alias, p2)
   | TComplex cn l r alias =>
-      do (sl, p1) <- render (set_subcriterion (needs_brackets cn (conn_of l)) c) p l;
-      do (sr, p2) <- render (set_subcriterion (needs_brackets cn (conn_of r)) c) p1 r;
-      Ok (paren_if (subcriterion c) (sl ++ [32] ++ conn_sql cn ++ [32] ++ sr), p2)
+      do (sl, p1) <- render (set_with_alias false (set_subcriterion (needs_brackets cn (conn_of l)) c)) p l;
+      do (sr, p2) <- render (set_with_alias false (set_subcriterion (needs_brackets cn (conn_of r)) c)) p1 r;
+      Ok (alias_if (with_alias c) c (paren_if (subcriterion c) (sl ++ [32] ++ conn_sql cn ++ [32] ++ sr)) alias, p2)
   | TNested o nc l r n alias =>
-      do (sl, p1) <- render c p l;
-      do (sr, p2) <- render c p1 r;
-      do (sn, p3) <- render c p2 n;
+      do (sl, p1) <- render (set_with_alias false c) p l;
+      do (sr, p2) <- render (set_with_alias false c) p1 r;
+      do (sn, p3) <- render (set_with_alias false c) p2 n;
       Ok (alias_if (with_alias c) c (sl ++ cmp_sql o ++ sr ++ nc ++ sn) alias, p3)
   | TNot t' alias =>
-      do (s, p1) <- render (set_subcriterion true c) p t'; Ok (alias_sql c (L "NOT " ++ s) alias, p1)
-  | TAll t' alias => do (s, p1) <- render c p t'; Ok (alias_sql c (s ++ L " ALL") alias, p1)
-  | TIsNull t' alias => do (s, p1) <- render c p t'; Ok (alias_sql c (s ++ L " IS NULL") alias, p1)
+      do (s, p1) <- render (set_with_alias false (set_subcriterion true c)) p t'; Ok (alias_sql c (L "NOT " ++ s) alias, p1)
+  | TAll t' alias => do (s, p1) <- render (set_with_alias false c) p t'; Ok (alias_sql c (s ++ L " ALL") alias, p1)
+  | TIsNull t' alias => do (s, p1) <- render (set_with_alias false c) p t'; Ok (alias_sql c (s ++ L " IS NULL") alias, p1)
   | TContains t' cont neg alias =>
-      do (s, p1) <- render c p t';
-      do (sc, p2) <- render (set_subquery true c) p1 cont;
+      do (s, p1) <- render (set_with_alias false c) p t';
+      do (sc, p2) <- render (set_with_alias false (set_subquery true c)) p1 cont;
       Ok (alias_sql c (s ++ [32] ++ (if neg then L "NOT " else []) ++ L "IN " ++ sc) alias, p2)
   | TBetween t' s e alias =>
-      do (st, p1) <- render c p t'; do (ss, p2) <- render c p1 s; do (se, p3) <- render c p2 e;
+      do (st, p1) <- render (set_with_alias false c) p t'; do (ss, p2) <- render (set_with_alias false c) p1 s; do (se, p3) <- render (set_with_alias false c) p2 e;
       Ok (alias_sql c (st ++ L " BETWEEN " ++ ss ++ L " AND " ++ se) alias, p3)
   | TPeriod t' s e alias =>
-      do (st, p1) <- render c p t'; do (ss, p2) <- render c p1 s; do (se, p3) <- render c p2 e;
+      do (st, p1) <- render (set_with_alias false c) p t'; do (ss, p2) <- render (set_with_alias false c) p1 s; do (se, p3) <- render (set_with_alias false c) p2 e;
       Ok (alias_sql c (st ++ L " FROM " ++ ss ++ L " TO " ++ se) alias, p3)
   | TBitAnd t' v alias =>
-      do (st, p1) <- render c p t';
+      do (st, p1) <- render (set_with_alias false c) p t';
       do (sv, _) <- render default_ctx None v;                 (* "{value}".format(value=self.value): str(), default context *)
       Ok (alias_sql c (L "(" ++ st ++ L " & " ++ sv ++ L ")") alias, p1)
   | TCase cs els alias =>
@@ -207,7 +207,7 @@ Fixpoint render (c : ctx) (p : pz) (t : term) {struct t} : res (str * pz) :=
   | TFunc name args sp sp_from distinct filter over noparens schema alias =>
       (* the arguments are rendered first, then get_special_params_sql *)
       do (sargs, p1) <- render_ts (set_with_alias false c) p args;
-      do (ofrom, p2) <- render_o c p1 sp_from;
+      do (ofrom, p2) <- render_o (set_with_alias false c) p1 sp_from;
       let special := match ofrom with
                      | Some f => L "FROM " ++ f
                      | None => match sp with SpText s => s | SpNone => [] end
@@ -215,19 +215,19 @@ Fixpoint render (c : ctx) (p : pz) (t : term) {struct t} : res (str * pz) :=
       let base := if noparens then name
                   else name ++ L "(" ++ (if distinct then L "DISTINCT " else []) ++ join [44] sargs ++
                        (match special with [] => [] | _ => [32] ++ special end) ++ L ")" in
-      do (ofilter, p3) <- render_o c p2 filter;
+      do (ofilter, p3) <- render_o (set_with_alias false c) p2 filter;
       let base := match ofilter with Some f => base ++ L " FILTER(WHERE " ++ f ++ L ")" | None => base end in
-      do (oov, p4) <- render_over c p3 over;
+      do (oov, p4) <- render_over (set_with_alias false c) p3 over;
       let base := match oov with Some o => base ++ L " OVER(" ++ o ++ L ")" | None => base end in
       let base := match schema with Some sch => schema_sql c sch ++ [46] ++ base | None => base end in
       Ok (alias_if (with_alias c) c base alias, p4)
   | TTuple vs alias =>
-      do (ss, p1) <- render_ts c p vs; Ok (alias_sql c (paren (join [44] ss)) alias, p1)
+      do (ss, p1) <- render_ts (set_with_alias false c) p vs; Ok (alias_sql c (paren (join [44] ss)) alias, p1)
   | TArray vs vid hasterm alias =>
       match (if hasterm then None else p) with
       | Some z => let '(txt, z') := create_param c z vid in Ok (alias_sql c txt alias, Some z')
       | None =>
-        do (ss, p1) <- render_ts c p vs;
+        do (ss, p1) <- render_ts (set_with_alias false c) p vs;
         let values := join [44] ss in
         let s := match dialect c with
                  | POSTGRESQL | REDSHIFT => match values with [] => L "'{}'" | _ => L "ARRAY[" ++ values ++ L "]" end
@@ -236,16 +236,17 @@ Fixpoint render (c : ctx) (p : pz) (t : term) {struct t} : res (str * pz) :=
         Ok (alias_sql c s alias, p1)
       end
   | TJson j alias => Ok (alias_sql c (fquote (secondary_quote_char c) (bsd (dial_eqb (dialect c) MYSQL) (json_sql j))) alias, p)
-  | TValues f _ => do (s, p1) <- render c p f; Ok (L "VALUES(" ++ s ++ L ")", p1)
+  | TValues f alias => do (s, p1) <- render (set_with_alias false c) p f; Ok (alias_if (with_alias c) c (L "VALUES(" ++ s ++ L ")") alias, p1)
   | TLiteral raw alias => Ok (alias_sql c raw alias, p)
-  | TPseudo raw _ => Ok (raw, p)
-  | TParam ph idx _ =>
-      match ph with
-      | Some (x :: xs) => Ok (x :: xs, p)
-      | _ => Ok (ph_text (placeholder_style (dialect c)) (match idx with Some n => n | None => 0 end), p)
-      end
+  | TPseudo raw alias => Ok (alias_if (with_alias c) c raw alias, p)
+  | TParam ph idx alias =>
+      let s := match ph with
+               | Some (x :: xs) => x :: xs
+               | _ => ph_text (placeholder_style (dialect c)) (match idx with Some n => n | None => 0 end)
+               end in
+      Ok (alias_if (with_alias c) c s alias, p)
   | TAtTZ f zone interval alias =>
-      do (s, p1) <- render c p f;
+      do (s, p1) <- render (set_with_alias false c) p f;
       Ok (alias_sql c (s ++ L " AT TIME ZONE " ++ (if interval then L "INTERVAL " else []) ++ L "'" ++ zone ++ L "'") alias, p1)
   | TInterval a => Ok (interval_sql (dialect c) a, p)
   | TRawStr s => Ok (s, p)
@@ -448,7 +449,8 @@ with render_query (c0 : ctx) (p : pz) (q : query) {struct q} : res (str * pz) :=
     (* dialect get_sql overrides that copy the context first *)
     let c0 := match cls with BMSSQL | BOracle => set_groupby_alias false c0 | _ => c0 end in
     let ns := has_joins || from_len_gt1 from || from0_is_query from || foreign_table || (has_upd && is_nonempty_terms from) in
-    let c := set_with_namespace ns c0 in
+    (* the flags of the embedding position decide only about the parentheses and the alias around the whole statement *)
+    let c := set_with_namespace ns (set_subquery false (set_with_alias false (set_subcriterion false c0))) in
     let sel_aliases := aliases_of selects in
     (* ---- clause helpers (closed terms over the components of q) ---- *)
     let with_sql p := match withs with
@@ -481,11 +483,11 @@ with render_query (c0 : ctx) (p : pz) (q : query) {struct q} : res (str * pz) :=
                        Ok ((match o with Some s => L " WHERE " ++ s | None => [] end), p1) in
     let prewhere_sql p := do (o, p1) <- render_o (set_subquery true c) p prewheres;
                           Ok ((match o with Some s => L " PREWHERE " ++ s | None => [] end), p1) in
-    let set_sql p := do (ss, p1) <- render_upds (set_with_namespace false c) c p updates; Ok (L " SET " ++ join [44] ss, p1) in
+    let set_sql p := do (ss, p1) <- render_upds (set_with_namespace false c) (set_subquery true c) p updates; Ok (L " SET " ++ join [44] ss, p1) in
     let orderby_sql_c (cc : ctx) p :=
                          match orderbys with
                          | ONil => Ok ([], p)
-                         | _ => do (ss, p1) <- render_obys cc sel_aliases true p orderbys; Ok (L " ORDER BY " ++ join [44] ss, p1)
+                         | _ => do (ss, p1) <- render_obys (set_subquery true cc) sel_aliases true p orderbys; Ok (L " ORDER BY " ++ join [44] ss, p1)
                          end in
     let orderby_sql := orderby_sql_c c in
     let limit_kw_sql_c (cc : ctx) p :=
@@ -601,19 +603,19 @@ with render_query (c0 : ctx) (p : pz) (q : query) {struct q} : res (str * pz) :=
         do (sw, p6) <- where_sql p5;
         do (sg, p7) <- (match groupbys with
                         | GNil => Ok ([], p6)
-                        | _ => do (ss, p') <- render_gbys c p6 groupbys;
+                        | _ => do (ss, p') <- render_gbys (set_subquery true c) p6 groupbys;
                                Ok (L " GROUP BY " ++ join [44] ss ++ (if with_totals then L " WITH TOTALS" else []) ++
                                    (if mysql_rollup then L " WITH ROLLUP" else []), p')
                         end);
-        do (sh, p8) <- (do (o, p') <- render_o c p7 havings; Ok ((match o with Some s => L " HAVING " ++ s | None => [] end), p'));
+        do (sh, p8) <- (do (o, p') <- render_o (set_subquery true c) p7 havings; Ok ((match o with Some s => L " HAVING " ++ s | None => [] end), p'));
         do (so, p9) <- orderby_sql p8;
         do (sp, p10) <- pagination p9;
         let qs := qs ++ sf ++ sfi ++ sui ++ sj ++ spw ++ sw ++ sg ++ sh ++ so ++ sp ++ for_update_sql in
-        let qs := paren_if (subquery c) qs in
+        let qs := paren_if (subquery c0) qs in
         do (qs, p11) <- (if on_conflict then
                            do (s1, p') <- on_conflict_sql p10; do (s2, p'') <- on_conflict_action_sql p'; Ok (qs ++ s1 ++ s2, p'')
                          else Ok (qs, p10));
-        Ok (alias_if (with_alias c) c qs alias, p11) in
+        Ok (alias_if (with_alias c0) c qs alias, p11) in
     let generic p :=
         if has_upd then generic_update p
         else if delete_from then tail (L "DELETE") p
